@@ -19,8 +19,8 @@ impl Property for C05 {
     }
     fn runs(&self, tier: Tier) -> u64 {
         match tier {
-            Tier::Quick => 400,
-            Tier::Thorough => 8000,
+            Tier::Quick => 1200,
+            Tier::Thorough => 24000,
         }
     }
     fn rule(&self) -> &'static str {
